@@ -35,7 +35,8 @@ def case_strategy():
     req = st.fixed_dictionaries({'typ': st.sampled_from(['authn', 'authn', 'authn', 'logout', 'mnid']), 'issuer': st.sampled_from([0, 0, 0, 1, 'unknown']),
                                  'url': st.one_of(st.none(), url, st.just('@registered'), st.just('@other-sp')), 'index': st.one_of(st.none(), st.none(), st.integers(0, 7), st.just('@registered'), st.just('@registered')),
                                  'protocol_binding': st.one_of(st.none(), st.none(), st.just('@registered'), st.sampled_from(sorted(B)), st.just('urn:unsupported:binding')),
-                                 'bindings': st.one_of(st.none(), st.none(), st.none(), st.lists(st.sampled_from(sorted(B)), min_size=1, max_size=4, unique=True))})
+                                 'bindings': st.one_of(st.none(), st.none(), st.none(), st.lists(st.sampled_from(sorted(B)), min_size=1, max_size=4, unique=True)),
+                                 'both': st.booleans()})
     return st.fixed_dictionaries({'sps': st.tuples(sp, sp).map(list), 'requests': st.lists(req, min_size=1, max_size=4)})
 
 
@@ -79,8 +80,8 @@ def run(case):
         pb = own_acs[n % len(own_acs)][0] if pb == '@registered' else B.get(pb, pb)
         iss = saml.Issuer(text=ent)
         if rq['typ'] == 'authn':
-            if url is not None and index is not None:
-                index = None        # the schema allows only one of them
+            if url is not None and index is not None and not rq.get('both'):
+                index = None        # the profile says one or the other; the schema type allows both attributes, so hostile requests with both are generated too ('both')
             msg = samlp.AuthnRequest(id='id-%d' % n, issuer=iss, assertion_consumer_service_url=url, assertion_consumer_service_index=index, protocol_binding=pb)
         elif rq['typ'] == 'logout':
             url = index = None
@@ -120,6 +121,9 @@ def run(case):
             if admissible and binding not in admissible:
                 raise Violation('binding-not-admissible', 'request %d: binding %s not among %r' % (n, binding, admissible))
         labels.add('answered' + ('|url' if url else '') + ('|index' if index else ''))
+    for n, rq in enumerate(case['requests']):
+        if rq['typ'] == 'authn' and rq.get('both') and rq['url'] is not None and rq['index'] is not None:
+            labels.add('url+index-request')
     return '+'.join(sorted(labels)), nt
 
 
